@@ -29,11 +29,13 @@ def rangeNH : List (Nat × Nat) → Option Range
 /-- The notifications the property demands for a sequence of commits: for every stored block,
 first (iff blocks were reverted since the previous store) one reorg notification delimiting exactly
 the reverted blocks, then one new-head notification for the block. `p` = blocks reverted so far
-since the last store. -/
+since the last store; a restart of the synchroniser forgets them (a new instance starts with
+`currReorg = nil`). -/
 def expectedNotifs : List (Nat × Nat) → List SEv → List Obs
   | _, [] => []
   | p, .obs (.stored n h) :: tr => reorgObs (rangeNH p) ++ [Obs.newHead n h] ++ expectedNotifs [] tr
   | p, .obs (.reverted n h) :: tr => expectedNotifs ((n, h) :: p) tr
+  | _, .restart :: tr => expectedNotifs [] tr
   | p, _ :: tr => expectedNotifs p tr
 
 theorem lastD_eq (l : List Blk) (d : Blk) : lastD l d = (l.getLast?).getD d := by
@@ -79,6 +81,12 @@ theorem Spec.notifs_balance (strict : Bool) : ∀ (tr : List SEv) (s s' : Spec),
       | latest l =>
         simp only [Spec.step] at hst; cases hst
         simpa [expectedNotifs, notifsOf] using ih
+      | restart =>
+        simp only [Spec.step] at hst
+        split at hst
+        · cases hst
+          simpa [expectedNotifs, notifsOf] using ih
+        · cases hst
       | obs o =>
         cases o with
         | stored n hh =>
